@@ -78,7 +78,7 @@ def get_program(case):
     if case["gen"] == "prog":
         r = random.Random(case["seed"])
         g = progs.ProgGen(r, **case.get("knobs", {}))
-        return g.program()
+        return g.program(case.get("nlines"))
     if case["gen"] == "ast":
         return [(n, list(st)) for n, st in case["prog"]]
     if case["gen"] == "c02":
@@ -162,7 +162,8 @@ def run_case(case):
 def cases(tier, seed):
     n = 1500 if tier == "quick" else 150000
     for i in range(n):
-        yield {"gen": "prog", "seed": seed * 1000003 + i, "opt": i, "sample": i % 211 == 0}
+        yield {"gen": "prog", "seed": seed * 1000003 + i, "opt": i, "sample": i % 211 == 0,
+               "nlines": (120 + i % 130) if i % 60 == 59 else None}
     # simpler programs (fewer features per program give more accepted programs per kind)
     for i in range(n // 3):
         yield {"gen": "prog", "seed": seed * 7000003 + i, "opt": i,
